@@ -677,6 +677,10 @@ void Parser::ParserImpl::loadComponent(const ComponentPtr &component, const XmlN
 
                     // Set all attributes that had an old CellML namespace with CellML 2.0 namespace.
                     for (const auto &cellmlAttribute : cellmlAttributes) {
+                        if (cellmlAttribute->name() == "units") {
+                            // The non-SI spellings of CellML 1.X are not standard units in CellML 2.0.
+                            cellmlAttribute->setValue(convertNonSiUnits(cellmlAttribute->value()));
+                        }
                         cellmlAttribute->setNamespacePrefix("cellml");
                     }
                 }
